@@ -684,20 +684,24 @@ func runMuxStress(c *engine.Ctx, round int, seed int64) {
 		return
 	}
 	feed.Close()
-	if useFeed {
-		// the goroutine spawned by IngressListener is not ours: wait until it is gone
+	// The drainer and the IngressListener goroutine are spawned by the library and are not ours to join:
+	// a connection the drainer has received but not yet closed would look lost. Stress rounds run one at
+	// a time, so wait until no goroutine inside the net package is runnable or running any more
+	// (consistent snapshot; after Close none of them can be parked on anything but a closed channel).
+	{
 		deadline := time.Now().Add(30 * time.Second)
 		for {
 			busy := false
-			for _, gi := range snapshotAllWith("IngressListener") {
-				_ = gi
-				busy = true
+			for _, gi := range snapshotAll() {
+				if gi.lib && !waiting(gi.state) {
+					busy = true
+				}
 			}
-			if !busy {
+			if !busy && (!useFeed || len(snapshotAllWith("IngressListener")) == 0) {
 				break
 			}
 			if time.Now().After(deadline) {
-				r.Inconclusive("goroutine of IngressListener still alive 30 s after its listener and the multiplexer were closed")
+				r.Inconclusive("library goroutines still busy 30 s after the multiplexer was closed")
 				return
 			}
 			runtime.Gosched()
@@ -824,7 +828,10 @@ func runMux(c *engine.Ctx) engine.Result {
 
 	// ---- stress -----------------------------------------------------------
 	rounds := c.Pick(300, 20000)
-	engine.ForEach(rounds, 8, func(i int) { runMuxStress(c, i, c.Seed) })
+	// one round at a time (each round is internally concurrent): see the quiescence wait in runMuxStress
+	for i := 0; i < rounds; i++ {
+		runMuxStress(c, i, c.Seed)
+	}
 
 	r.Require("connections_returned_once", 20)
 	r.Require("connections_closed", 20)
